@@ -392,6 +392,8 @@ static void gen(const char *prop, RunSpec &spec)
 	else if (mk >= 84 && mk < 92 && !no_big_mll) mll = r.chance(1, 3) ? 4096 : r.range(513, 4096);
 	else if (mk >= 92 && !no_small_mll) mll = r.range(16, 79);
 	p.set("mll", mll);
+	// a blackbox smaller than a couple of maximal records (33 + function name + line length each) is a misconfiguration, not a stimulus
+	if (mll > 512 && S < 3 * mll + 1024) { S = 3 * mll + 1024 + r.range(0, 4096); p.set("size", S); }
 	// (qb_log_fini walks the call-site table, which is indexed by line number, taking a lock per entry: high bases cost time)
 	p.set("lineno_base", r.chance(1, 12) ? r.range(LINENO_MIN, 60000) : r.range(LINENO_MIN, 9000));
 	p.set("real_base_s", r.chance(1, 8) ? r.range(0, 4000000000LL) : r.range(1500000000, 1900000000));
@@ -464,6 +466,7 @@ struct Rec {
 	uint8_t prio;
 	std::string fn, text, prefix;
 	size_t ser;          // serialized size
+	int hazard;          // hazard group of the format it was logged with
 	bool overlong;       // the library may replace the text by its notice
 };
 
@@ -932,7 +935,9 @@ static void check_pristine(const std::string &out, int rc)
 			}
 			size_t k = 0;
 			while (k < g.msg.size() && k < want.size() && g.msg[k] == want[k]) k++;
-			VIOL(15, "roundtrip-message", PSITE, "record #%u: text differs at char %zu (logged %zu chars, printed %zu; serialized size %zu, line length %u): logged \"%.50s\" printed \"%.50s\"",
+			const char *cls = e.hazard == HZ_PCT ? "roundtrip-message-after-percent-literal" : e.hazard == HZ_PREC ? "roundtrip-message-after-precision" :
+					  e.hazard == HZ_WIDE ? "roundtrip-message-long-text" : "roundtrip-message";
+			VIOL(15, cls, PSITE, "record #%u: text differs at char %zu (logged %zu chars, printed %zu; serialized size %zu, line length %u): logged \"%.50s\" printed \"%.50s\"",
 			     e.serial, k, want.size(), g.msg.size(), e.ser, G.mll, want.c_str() + (k > 10 ? k - 10 : 0), g.msg.c_str() + (k > 10 ? k - 10 : 0));
 		}
 	}
@@ -999,6 +1004,7 @@ static void op_log(const Op &op)
 		if (x != std::string::npos) { if (x + 1 < rec.text.size()) rec.text[x] = '|'; else rec.text.erase(x); }
 	}
 	rec.ser = ser_size(fmt, f.shape, a);
+	rec.hazard = f.hazard;
 	rec.overlong = rec.ser + 8 >= G.mll;
 	char tb[64], pre[512];
 	struct tm tmv;
@@ -1125,7 +1131,7 @@ static int count_fds()
 	return n;
 }
 
-static void run(const char *prop, const RunSpec &spec)
+static void run_scenario(const char *prop, const RunSpec &spec)
 {
 	which = atoi(prop + 1);
 	const Plan &p = spec.plan;
@@ -1136,6 +1142,7 @@ static void run(const char *prop, const RunSpec &spec)
 	G.S = (uint32_t)std::max<int64_t>(1024, std::min<int64_t>(1 << 20, p.get("size", 1024)));
 	int64_t mll = p.get("mll");
 	G.mll = mll <= 0 ? QB_LOG_MAX_LEN : (uint32_t)std::max<int64_t>(16, std::min<int64_t>(QB_LOG_ABSOLUTE_MAX_LEN, mll));
+	if (G.mll > 512 && G.S < 3 * G.mll + 1024) G.S = 3 * G.mll + 1024;
 	G.lineno_base = (uint32_t)std::max<int64_t>(LINENO_MIN, std::min<int64_t>(60000, p.get("lineno_base")));
 	G.stack_fill = (int)(p.get("stack_fill") & 3);
 	G.text_cap = (int)std::max<int64_t>(0, std::min<int64_t>(8000, p.get("text_cap")));
@@ -1184,6 +1191,50 @@ static void run(const char *prop, const RunSpec &spec)
 	set_nontrivial(G.checked >= 2 || G.damaged_done >= 1);
 	res.fingerprint = res.ev_hash;
 	Gp = NULL;
+}
+
+// Every run executes in a child process of its own. Reason: qb_log_fini() does not return the logging layer to its initial
+// state (log_dcs.c never resets callsite_arr_next, so the dynamic call-site table of the next qb_log_init() starts where the
+// previous one ended, qb_log_fini gets slower with every cycle and the 65536th call site of a process aborts on an assert),
+// and a run must not depend on how many runs its worker process has executed before. Verdict, event hash, counters and the
+// fault trace live in the simulator's shared mapping, so the parent sees them. A child that dies (assert, ASan, signal) is
+// followed by its parent, in the same manner, so that the driver's crash classification works unchanged.
+static void run(const char *prop, const RunSpec &spec)
+{
+	if (getenv("SIMK_BB_NOFORK")) { run_scenario(prop, spec); return; }
+	fflush(stdout); fflush(stderr);
+	pid_t pid = fork();
+	if (pid < 0) { inconclusive("fork-failed"); return; }
+	if (pid == 0) {
+		run_scenario(prop, spec);
+		_exit(0);
+	}
+	int status = 0;
+	while (waitpid(pid, &status, 0) < 0 && errno == EINTR) { }
+	if (WIFEXITED(status) && WEXITSTATUS(status) == 0) return;
+	// remove what the dead child left in /dev/shm (its names carry its pid)
+	char f[PATH_MAX], pre[64];
+	snprintf(f, sizeof f, "/dev/shm/qb-bb%07d-1-blackbox-header", (int)(pid % 10000000)); unlink(f);
+	snprintf(f, sizeof f, "/dev/shm/qb-bb%07d-1-blackbox-data", (int)(pid % 10000000)); unlink(f);
+	snprintf(pre, sizeof pre, "qb-create_from_file%d-", (int)pid);
+	DIR *dir = opendir("/dev/shm");
+	if (dir) {
+		struct dirent *de;
+		while ((de = readdir(dir))) if (!strncmp(de->d_name, pre, strlen(pre))) { snprintf(f, sizeof f, "/dev/shm/%s", de->d_name); unlink(f); }
+		closedir(dir);
+	}
+	char b[96];
+	int n = snprintf(b, sizeof b, "\nCRASH {\"signal\":%d,\"index\":%llu}\n", WIFSIGNALED(status) ? WTERMSIG(status) : 0, (unsigned long long)spec.index);
+	if (write(1, b, (size_t)n)) { }
+	if (WIFSIGNALED(status)) {
+		struct rlimit rl = { 0, 0 };
+		setrlimit(RLIMIT_CORE, &rl);
+		signal(WTERMSIG(status), SIG_DFL);
+		raise(WTERMSIG(status));
+		sigset_t ss; sigemptyset(&ss); sigaddset(&ss, WTERMSIG(status)); sigprocmask(SIG_UNBLOCK, &ss, NULL);
+		kill(getpid(), WTERMSIG(status));
+	}
+	_exit(WIFEXITED(status) ? WEXITSTATUS(status) : 99);
 }
 
 static const Harness H = {
